@@ -474,8 +474,10 @@ def build():
         requires=["has_peek(fileobj) or POS0 == 0"],
         params=dict(fileobj=fobj),
         returns=lambda interp, env: Alternatives(["compat", "not-compressed", "noprefix"] + METHODS),
-        ensures={"a_format_without_magic_number_is_never_recognised": "result != 'noprefix'",
-                 "plain_pickle": "implies(starts(FIRST, b'\\x80'), result == 'not-compressed')"},
+        # (it may serve as a last resort for content that is neither a recognised format nor a pickle: that is how files written WITH such a
+        # compressor stay loadable; what it must never do is take a pickle - every uncompressed file joblib writes - for its own)
+        ensures={"a_format_without_magic_number_never_takes_a_pickle": "implies(starts(FIRST, b'\\x80'), result == 'not-compressed')",
+                 "nor_a_file_of_a_recognisable_format": "implies(starts(FIRST, prefix_of('gzip')), result == 'gzip') and implies(starts(FIRST, prefix_of('zlib')), result == 'zlib')"},
     ))
 
     # ------------------------------------------------------------------ load / _unpickle: the read side of the dispatch
